@@ -57,6 +57,10 @@ func buildRetry(c retryCfg) retrypolicy.RetryPolicyBuilder[int] {
 			b.AbortOnResult(7)
 		case "I":
 			b.AbortIf(c12Pred)
+		case "Es":
+			errs := []error{errE1, errE2}
+			b.AbortOnErrors(errs...)
+			errs[0], errs[1] = errE3, errE3
 		case "EE":
 			b.AbortOnErrors(errE1, errE2)
 		case "EE2":
@@ -119,8 +123,8 @@ func retryExpect(c retryCfg, script []step) (stop int, how string, unjudged bool
 }
 
 func genRetryCase(r *rand.Rand) (retryCfg, []step) {
-	handles := []condSet{{}, {}, {"E"}, {"R"}, {"I"}, {"E", "R"}, {"Tv"}, {"R", "I"}, {"E", "Tvp", "R"}, {"TT"}, {"EE2", "R"}}
-	aborts := []condSet{{}, {}, {}, {"E"}, {"R"}, {"I"}, {"Tv"}, {"E", "R"}, {"TT2"}, {"EE"}}
+	handles := []condSet{{}, {}, {"E"}, {"R"}, {"I"}, {"E", "R"}, {"Tv"}, {"R", "I"}, {"E", "Tvp", "R"}, {"TT"}, {"EE2", "R"}, {"Es"}}
+	aborts := []condSet{{}, {}, {}, {"E"}, {"R"}, {"I"}, {"Tv"}, {"E", "R"}, {"TT2"}, {"EE"}, {"Es"}}
 	c := retryCfg{MaxRetries: vk.Pick(r, 0, 1, 2, 3, 5, -1), ViaAttempts: r.IntN(3) == 0, Handle: handles[r.IntN(len(handles))], Abort: aborts[r.IntN(len(aborts))], ReturnLast: r.IntN(2) == 0}
 	n := c.MaxRetries + 3
 	if c.MaxRetries == -1 {
@@ -139,7 +143,7 @@ func genRetryCase(r *rand.Rand) (retryCfg, []step) {
 }
 
 func checkC02(rep *vk.Report) {
-	rep.Rule = "(A) sequential: maxRetries/maxAttempts in {0,1,2,3,5,unlimited} x handle-condition lists x abort-condition lists x ReturnLastFailure x scripts of up to maxRetries+3 outcomes; the invocation count must equal the index of the first stopping outcome (non-failure, abort match, or failures = maxRetries+1) and the returned value must be the stopping outcome unchanged, ExceededError{last} or the last outcome; plus WithMaxDuration cases with sleeping steps judged one-sidedly from time.Since(exec.StartTime()) sampled in the function. (B) concurrent: 16-32 goroutines x many executions (sync and async) sharing ONE policy and executor, each with its own script and expectation, under the race detector. Non-trivial: at least one retry, abort or exhaustion; distinct by (maxRetries, handle list, abort list, return-last, outcome sequence, ending)."
+	rep.Rule = "(A) sequential: maxRetries/maxAttempts in {0,1,2,3,5,unlimited} x handle-condition lists x abort-condition lists x ReturnLastFailure x scripts of up to maxRetries+3 outcomes; the invocation count must equal the index of the first stopping outcome (non-failure, abort match, or failures = maxRetries+1) and the returned value must be the stopping outcome unchanged, ExceededError{last} or the last outcome; plus WithMaxDuration cases with sleeping steps judged one-sidedly from time.Since(exec.StartTime()) sampled in the function. Plus result conditions on a pointer-bearing result type with separately allocated deep-equal values. (B) concurrent: 16-32 goroutines x many executions (sync and async) sharing ONE policy and executor, each with its own script and expectation, under the race detector. Non-trivial: at least one retry, abort or exhaustion; distinct by (maxRetries, handle list, abort list, return-last, outcome sequence, ending)."
 	rep.Assumptions = []string{
 		"A1: an abort-matching failure on the attempt that exhausts the budget may end as ExceededError or unchanged",
 		"A6: AbortOnResult on outcomes that also carry an error is not judged",
@@ -163,6 +167,12 @@ func checkC02(rep *vk.Report) {
 			return
 		}
 		retryMaxDuration(rep, idx)
+	})
+	vk.Parallel(scale(rep, 300, 10000), 16, func(i int) {
+		if rep.Skip(nA + nD + 900000000 + i) {
+			return
+		}
+		c02Deep(rep, nA+nD+900000000+i)
 	})
 	// (B) concurrent sharing
 	rounds := scale(rep, 12, 200)
@@ -335,4 +345,49 @@ func retryMaxDuration(rep *vk.Report, idx int) {
 			rep.Violate(idx, "C02/gave-up-before-max-duration", fmt.Sprintf("gave up after %d of %d allowed invocations only %v after the call began (max duration %v); cfg %+v", calls, c.MaxRetries+1, el, time.Duration(c.MaxDuration), c), cs)
 		}
 	}
+}
+
+// c02Deep: the stopping rule with result conditions on a pointer-bearing result type. HandleResult and AbortOnResult are
+// documented as reflect.DeepEqual: separately allocated equal values must be retried / must abort.
+func c02Deep(rep *vk.Report, idx int) {
+	r := vk.Rng(rep.Seed, "C02deep", idx)
+	mk := func(n int) *box { return &box{N: n, Tags: []string{"x"}, Next: &box{N: n}} }
+	maxRetries := 1 + r.IntN(4)
+	// script: k deep-equal "bad" results, then either an abort value or a good one
+	k := r.IntN(maxRetries + 2)
+	endsWithAbort := r.IntN(2) == 0
+	rp := retrypolicy.Builder[*box]().WithMaxRetries(maxRetries).HandleResult(mk(7)).AbortOnResult(mk(9)).ReturnLastFailure().
+		HandleIf(func(b *box, _ error) bool { return b != nil && b.N == 9 }).Build()
+	calls := 0
+	res, err := failsafe.Get(func() (*box, error) {
+		calls++
+		switch {
+		case calls <= k:
+			return mk(7), nil // a fresh allocation each time
+		case endsWithAbort:
+			return mk(9), nil
+		}
+		return mk(1), nil
+	}, rp)
+	rep.Eval()
+	want := min(k, maxRetries+1)
+	if k <= maxRetries {
+		want = k + 1
+	}
+	final := 7
+	if k <= maxRetries {
+		final = 1
+		if endsWithAbort {
+			final = 9
+		}
+	}
+	if calls != want || err != nil || res == nil || res.N != final {
+		got := -1
+		if res != nil {
+			got = res.N
+		}
+		rep.Violate(idx, "C02/deep-equal-result-conditions", fmt.Sprintf("retry(maxRetries=%d, HandleResult(&box{7}), AbortOnResult(&box{9}), ReturnLastFailure) with %d separately allocated &box{7} results then %s: function invoked %d times (rule %d), returned box %d err %v (rule box %d)", maxRetries, k, map[bool]string{true: "&box{9}", false: "&box{1}"}[endsWithAbort], calls, want, got, err, final), map[string]any{"max_retries": maxRetries, "bad_results": k, "abort": endsWithAbort})
+		return
+	}
+	rep.Distinct(fmt.Sprintf("deep|%d|%d|%v", maxRetries, k, endsWithAbort))
 }
